@@ -425,7 +425,21 @@ func (x *Exec) noFallthrough(cc *ast.CaseClause) {
 	}
 }
 
+func (x *Exec) snapshotAt(kind string, n ast.Node, st *State) {
+	if x.con == nil || x.con.Snapshots == nil {
+		return
+	}
+	ord := x.stmtOrd[n]
+	if name, ok := x.con.Snapshots[fmt.Sprintf("%s %d", kind, ord)]; ok {
+		if st.snaps == nil {
+			st.snaps = map[string]*State{}
+		}
+		st.snaps[name] = st.clone()
+	}
+}
+
 func (x *Exec) typeSwitch(n *ast.TypeSwitchStmt, st *State, fr *frame, k func(*State)) {
+	x.snapshotAt("typeswitch", n, st)
 	x.stmt(n.Init, st, fr, func(st *State) {
 		var subject ast.Expr
 		var bind *ast.Ident
@@ -702,7 +716,9 @@ func (x *Exec) havoc(st *State, ms *modSet) {
 			if _, ok := st.mem[k]; !ok {
 				continue // never touched before: memTerm will create the entry value... which would be wrong after a loop
 			}
+			was := st.mem[k]
 			st.mem[k] = Term{S: x.ctx.fresh("hv_"+k, x.memSort[k]), Sort: x.memSort[k]}
+			x.frameTransfer(k, was, st.mem[k])
 		}
 		if ms.allocs {
 			na := x.ctx.fresh("alloc", "Int")
@@ -712,6 +728,27 @@ func (x *Exec) havoc(st *State, ms *modSet) {
 	}
 	for _, o := range objs {
 		st.vars[o] = x.freshOf(st, o.Name(), o.Type())
+	}
+}
+
+// useClauses assumes instances of trusted axiom schemata.
+func (x *Exec) useClauses(cs []*Clause, env *SpecEnv, st *State) {
+	for _, c := range cs {
+		call, ok := c.Expr.(*ast.CallExpr)
+		if !ok {
+			x.stale = append(x.stale, fmt.Sprintf("%s:%d use clause must be an axiom-schema instance", c.File, c.Line))
+			continue
+		}
+		id, _ := call.Fun.(*ast.Ident)
+		if id == nil || x.prog.Contracts.Specs[id.Name] == nil || !x.prog.Contracts.Specs[id.Name].Schema {
+			x.stale = append(x.stale, fmt.Sprintf("%s:%d use clause must name an axiomschema", c.File, c.Line))
+			continue
+		}
+		e := *env
+		e.inUse = true
+		if f, ok := x.clause(c, &e); ok {
+			st.assume(f)
+		}
 	}
 }
 
@@ -829,6 +866,9 @@ func (x *Exec) forStmt(n *ast.ForStmt, label string, st *State, fr *frame, k fun
 		st.tag(fmt.Sprintf("loop%d", ord))
 		entry := st.clone()
 		entry.tag("entry")
+		if lc != nil {
+			x.useClauses(lc.UseEntry, x.specEnvAt(entry, pos), entry)
+		}
 		x.assertInv(lc, ord, entry, pos, "inv-entry", n, nil)
 		ms := x.modified(n.Body, n.Post, n.Cond)
 		x.ensureMem(st, ms)
@@ -845,6 +885,10 @@ func (x *Exec) forStmt(n *ast.ForStmt, label string, st *State, fr *frame, k fun
 		for _, g := range x.frameGoals(head, ms.mem) {
 			head.assume(g[1])
 		}
+		if lc != nil {
+			x.useClauses(lc.Use, x.specEnvAt(head, pos), head)
+		}
+		headSnap := head.clone()
 		hv := x.headVariant(lc, head, pos)
 		cond := mkBool(true)
 		if n.Cond != nil {
@@ -856,6 +900,17 @@ func (x *Exec) forStmt(n *ast.ForStmt, label string, st *State, fr *frame, k fun
 		inner := fr.child()
 		endIter := func(s *State) {
 			x.stmt(n.Post, s, fr, func(s *State) {
+				if lc != nil {
+					env := x.specEnvAt(s, pos)
+					env.head = headSnap
+					x.useClauses(lc.UseEnd, env, s)
+					for _, c := range lc.Steps {
+						if f, ok := x.clause(c, env); ok {
+							x.oblige(s, fmt.Sprintf("step@loop%d", ord), c.Label, n, f)
+							s.assume(f)
+						}
+					}
+				}
 				x.assertInv(lc, ord, s, pos, "inv-pres", n, hv)
 				for _, g := range x.frameGoals(s, ms.mem) {
 					x.oblige(s, fmt.Sprintf("frame-pres@loop%d", ord), g[0], n, g[1])
@@ -900,6 +955,28 @@ func (x *Exec) unrollFor(n *ast.ForStmt, label string, lc *LoopContract, ord int
 	}
 	x.stmt(n.Body, body, inner, next)
 	k(exit)
+}
+
+// frameTransfer: when the function has an assigns clause, a havoced element memory keeps (by the frame invariant
+// assumed at the loop head) every array that existed at entry and is not an assigns target; views carry over.
+func (x *Exec) frameTransfer(k string, was, now Term) {
+	if !strings.HasPrefix(k, "E!") || x.con == nil || !x.con.HasAssigns || x.old == nil {
+		return
+	}
+	targets := x.assignTargets(x.con, x.old, x.selfNames())
+	if targets["*"] != nil {
+		return
+	}
+	es := strings.TrimSuffix(strings.TrimPrefix(x.memSort[k], "(Array Int (Array Int "), "))")
+	refs := targets[k]
+	x.transferViews(was, now, es, func(sl string) string {
+		a := app("s-arr", sl)
+		cs := []string{app("<", a, x.old.alloc.S)}
+		for _, r := range refs {
+			cs = append(cs, not(app("=", a, r)))
+		}
+		return and(cs...)
+	})
 }
 
 // ensureMem creates the current value of every memory a loop may modify before it is havoced
@@ -1098,7 +1175,11 @@ func (x *Exec) finish(st *State, vals []Term, n ast.Node) {
 			x.oblige(st, "return-only-if-not", x.con.Panics.Label, n, not(f))
 		}
 	}
-	for _, c := range x.con.Ensures {
+	for _, c := range x.con.PostOrder {
+		if c.Kind == "use_end" {
+			x.useClauses([]*Clause{c}, env, st)
+			continue
+		}
 		if f, ok := x.clause(c, env); ok {
 			x.oblige(st, "post", c.Label, n, f)
 			st.assume(f)
@@ -1326,6 +1407,18 @@ func (x *Exec) applyContract(call ast.Node, c *FuncContract, key string, names m
 				}
 				st.pc = append(st.pc, fmt.Sprintf("(forall ((p?f Int)) (! %s :pattern ((select %s p?f))))", imp(and(append(excl, app("<", "p?f", pre.alloc.S))...), app("=", app("select", nm, "p?f"), app("select", was.S, "p?f"))), nm))
 				st.mem[k] = Term{S: nm, Sort: was.Sort}
+				if strings.HasPrefix(k, "E!") {
+					es := strings.TrimSuffix(strings.TrimPrefix(x.memSort[k], "(Array Int (Array Int "), "))")
+					rr, al := refs, pre.alloc.S
+					x.transferViews(was, st.mem[k], es, func(sl string) string {
+						a := app("s-arr", sl)
+						cs := []string{app("<", a, al)}
+						for _, r := range rr {
+							cs = append(cs, not(app("=", a, r)))
+						}
+						return and(cs...)
+					})
+				}
 			}
 			if !c.Pure {
 				na := x.ctx.fresh("alloc", "Int")
